@@ -460,3 +460,47 @@ func (v *Verifier) resliceAppend(cfg PropConfig, sc StructuralCheck) []StructRes
 	}
 	return []StructResult{r}
 }
+
+// callersVerified (structural kind `callers_verified`): every function of the module that calls `callee` is verified by this
+// property (in the sweep's claimed list or among its functions) - so the callee's precondition, which a representation
+// invariant rests on, is an obligation at every call site there is, not only at the ones that happen to be in scope.
+func (v *Verifier) callersVerified(cfg PropConfig, sc StructuralCheck) []StructResult {
+	var a struct {
+		Callee string `json:"callee"`
+	}
+	json.Unmarshal(sc.Args, &a)
+	callee := v.funcsByKey[modulePath+"/"+a.Callee]
+	if callee == nil {
+		engineErr("structural %s: unknown function %s", sc.Name, a.Callee)
+	}
+	var list SweepList
+	if d, err := os.ReadFile(filepath.Join("/verif", "sweeps", cfg.ID+".json")); err == nil {
+		json.Unmarshal(d, &list)
+	}
+	claimed := map[string]bool{}
+	for _, k := range list.Claimed {
+		claimed[k] = true
+	}
+	for _, f := range cfg.Functions {
+		claimed[f] = true
+	}
+	var bad, seen []string
+	for _, fn := range v.moduleFunctions(false) {
+		if fn.Synthetic != "" || !v.callsFunction(fn, callee) {
+			continue
+		}
+		k := shortKey(fn)
+		seen = append(seen, k)
+		if !claimed[k] {
+			bad = append(bad, k)
+		}
+	}
+	r := StructResult{Name: fmt.Sprintf("%s/structural/callers_verified[%s]", cfg.ID, sc.Name), Kind: "callers_verified",
+		Text: "every caller of " + a.Callee + " is a verified function (its precondition is an obligation at every call site of the module)", OK: len(bad) == 0 && len(seen) > 0}
+	if len(bad) > 0 {
+		r.Detail = "callers not verified: " + strings.Join(bad, ", ")
+	} else {
+		r.Detail = "callers: " + strings.Join(seen, ", ")
+	}
+	return []StructResult{r}
+}
